@@ -2,6 +2,8 @@ package crash
 
 import (
 	"fmt"
+	"github.com/sharedcode/sop"
+	"os"
 	"strings"
 	"testing"
 
@@ -81,4 +83,220 @@ func TestC09_Known_MaintenanceNeverRuns(t *testing.T) {
 		return
 	}
 	t.Fatalf("%s", what)
+}
+
+// crashWindow reports whether crash point (k, after) of the victim's commit lies after call `from` returned
+// and before the first call named by prefix `to` following it starts (positions in the crash run's numbering,
+// i.e. without the pass-through PLog.Remove).
+func crashWindow(sites []string, k int, after bool, from, to string, includeStart bool) bool {
+	var cs []string
+	for _, s := range sites {
+		if !strings.HasPrefix(s, "PLog.Remove") {
+			cs = append(cs, s)
+		}
+	}
+	for f, s := range cs {
+		if !strings.HasPrefix(s, from) {
+			continue
+		}
+		g := len(cs)
+		for j := f + 1; j < len(cs); j++ {
+			if strings.HasPrefix(cs[j], to) {
+				g = j
+				break
+			}
+		}
+		if (includeStart && k == f && after) || (k > f && k < g) || (k == g && !after) {
+			return true
+		}
+	}
+	return false
+}
+
+// TestC09_WithMaintenance looks behind the recorded finding (maintenance never runs): the restart process
+// runs the maintenance pass through the verif hook, once before the first reader and in each of the later
+// write transactions, with the clock 2 h ahead. Same crash images as above.
+func TestC09_WithMaintenance(t *testing.T) { withMaintenance(t, "C09") }
+
+// TestC08_WithMaintenance: the same cases judged for C08 only (all-before or all-after for every reader, stores
+// readable and writable); leftover log files and unreferenced blobs are C09's and C11's subject.
+func TestC08_WithMaintenance(t *testing.T) { withMaintenance(t, "C08") }
+
+func withMaintenance(t *testing.T, prop string) {
+	rec := stats.For(prop)
+	knownFlip := stats.Known("C09", "aged-log-rollback-after-flip-deletes-active-nodes")
+	knownUnlogged := stats.Known("C09", "commit-step-in-progress-at-crash-is-not-rolled-back")
+	rapid.Check(t, func(t *rapid.T) {
+		var h txh.History
+		if rapid.IntRange(0, 2).Draw(t, "nodeRemovingVictim") == 0 {
+			h = genNodeRemovingHistory(t)
+		} else {
+			h = genCrashHistory(t)
+		}
+		dr, err := dryRun(h)
+		if err != nil {
+			t.Fatalf("%v", err)
+		}
+		n := dr.CommitCall
+		f := siteIndex(dr.Sites, "Registry.UpdateNoLocksFlip")
+		for i := 0; i < 6; i++ {
+			lo := 0
+			if i >= 3 && f >= 0 && f < n-1 {
+				lo = f // half of the crash points lie in phase 2 and the cleanup after it
+			}
+			k := rapid.IntRange(lo, n-1).Draw(t, fmt.Sprintf("k%d", i))
+			after := rapid.Bool().Draw(t, fmt.Sprintf("after%d", i))
+			if knownFlip && crashWindow(dr.Sites, k, after, "Registry.UpdateNoLocksFlip", "TLog.Add", false) {
+				rec.Exclude("crash between the phase-2 registry flip and the next transaction log entry, recovery through the maintenance hook (known finding)")
+				continue
+			}
+			msg, out, err := crashCaseM(h, k, after, 7200, 5, true)
+			if err != nil {
+				t.Fatalf("%v", err)
+			}
+			if out == nil {
+				continue
+			}
+			if out.staleRetry {
+				continue
+			}
+			if out.newRootShape && knownRoot {
+				rec.Exclude("the victim's commit creates the root of an empty store, recovery through the maintenance hook (known C08 finding: new root live before the commit point)")
+				continue
+			}
+			if prop == "C08" {
+				if msg != "" {
+					t.Fatalf("with the maintenance pass run through the hook: %s\n  victim commit calls: %v\n%s", msg, dr.Sites, h.Render())
+				}
+				rec.Case(fmt.Sprintf("maint %s k=%d after=%v", h.Render(), k, after), k > 0, "withMaintenancePass")
+				continue
+			}
+			if msg == "" && len(out.logsLeft) > 0 {
+				msg = fmt.Sprintf("crash %s: log files of the dead transaction remain after the maintenance passes: %v", out.site, out.logsLeft)
+			}
+			if msg == "" && len(out.orphans) > 0 {
+				if knownUnlogged && (crashWindow(dr.Sites, k, after, "BlobStore.Add", "TLog.Add", true) || crashWindow(dr.Sites, k, after, "Registry.Add", "TLog.Add", true)) {
+					rec.Exclude("crash inside a commit step, after it wrote a blob or registry entry and before the next step was logged: the step in progress is not rolled back (known finding)")
+					continue
+				}
+				msg = fmt.Sprintf("crash %s: left behind after the maintenance passes: %v", out.site, out.orphans)
+			}
+			if os.Getenv("VERIF_COLLECT") != "" {
+				if len(msg) > 500 {
+					msg = msg[:500]
+				}
+				fmt.Printf("COLLECT k=%d/%d %s warm=%v :: %s @@ %s\n", k, n, out.site, out.warmupErr, msg, h.Render())
+				continue
+			}
+			if msg != "" {
+				t.Fatalf("with the maintenance pass run through the hook: %s\n  victim commit calls: %v\n%s", msg, dr.Sites, h.Render())
+			}
+			rec.Case(fmt.Sprintf("maint %s k=%d after=%v", h.Render(), k, after), k > 0, "withMaintenancePass")
+		}
+	})
+}
+
+func siteIndex(sites []string, prefix string) int {
+	j := 0
+	for _, s := range sites {
+		if strings.HasPrefix(s, "PLog.Remove") {
+			continue
+		}
+		if strings.HasPrefix(s, prefix) {
+			return j
+		}
+		j++
+	}
+	return -1
+}
+
+// TestC09_Known_AgedLogRollbackAfterFlip: the writer dies after the phase-2 registry flip and the removal of its
+// priority log, before the next transaction log entry; two hours later the maintenance pass (run through the
+// verif hook) rolls the aged transaction log back and deletes the node blobs the flip had just made active.
+func TestC09_Known_AgedLogRollbackAfterFlip(t *testing.T) {
+	h := txh.History{HashMod: 1, UUIDSeed: 7, Stores: []txh.StoreOpts{{Name: "st0", Slot: 4, Unique: true, Placement: 0}},
+		Txns: []txh.TxnProg{
+			{Mode: 1, End: "commit", Ops: []txh.Op{{Kind: "add", K: 1, Tag: "a"}, {Kind: "add", K: 2, Tag: "b"}, {Kind: "add", K: 3, Tag: "c"}}},
+			{Mode: 1, End: "commit", Ops: []txh.Op{{Kind: "update", K: 2, Tag: "B"}, {Kind: "add", K: 5, Tag: "e"}}},
+		}}
+	dr, err := dryRun(h)
+	if err != nil {
+		t.Fatalf("%v", err)
+	}
+	f := siteIndex(dr.Sites, "Registry.UpdateNoLocksFlip")
+	if f < 0 {
+		t.Skip("no phase-2 flip call in the commit")
+	}
+	msg, out, err := crashCaseM(h, f+1, false, 7200, 5, true)
+	if err != nil || out == nil {
+		t.Fatalf("HARNESS-ERROR %v", err)
+	}
+	if msg == "" {
+		return
+	}
+	what := "behind 'maintenance never runs' (maintenance pass run through the verif hook): a writer that dies after the phase-2 registry flip and the removal of its priority log but before its next transaction log entry is taken for uncommitted by the aged-log rollback two hours later, which deletes the node blobs the flip had just made active - the store is unreadable: " + msg
+	if stats.Known("C09", "aged-log-rollback-after-flip-deletes-active-nodes") {
+		stats.For("C09").KnownFinding(what)
+		return
+	}
+	t.Fatalf("%s", what)
+}
+
+// TestC09_Known_StepInProgressNotRolledBack: the writer dies inside commitAddedNodes, after the registry entries of
+// its new nodes were added; the aged-log rollback (maintenance pass through the verif hook) only undoes steps that
+// were followed by another log entry, so those registry entries stay for ever.
+func TestC09_Known_StepInProgressNotRolledBack(t *testing.T) {
+	h := txh.History{HashMod: 2, UUIDSeed: 0x370, Stores: []txh.StoreOpts{{Name: "st0", Slot: 2, Unique: false, Placement: 3}},
+		Txns: []txh.TxnProg{
+			{Mode: 1, End: "commit", Ops: []txh.Op{{Kind: "add", K: 3, Tag: "a", Size: 10}, {Kind: "add", K: 0, Tag: "b", Size: 10}}},
+			{Mode: 1, End: "commit", Ops: []txh.Op{{Kind: "add", K: 6, Tag: "c", Size: 10}, {Kind: "add", K: 1, Tag: "d", Size: 1}}},
+		}}
+	dr, err := dryRun(h)
+	if err != nil {
+		t.Fatalf("%v", err)
+	}
+	f := siteIndex(dr.Sites, "Registry.Add")
+	if f < 0 {
+		t.Skip("the commit adds no node")
+	}
+	msg, out, err := crashCaseM(h, f, true, 7200, 5, true)
+	if err != nil || out == nil {
+		t.Fatalf("HARNESS-ERROR %v", err)
+	}
+	if msg == "" && len(out.orphans) == 0 {
+		return
+	}
+	what := fmt.Sprintf("behind 'maintenance never runs' (maintenance pass run through the verif hook): the aged-log rollback undoes a commit step only when a later step was logged after it (lastCommittedFunctionLog > step), so what the step in progress at the crash had already written stays: a writer that dies right after commitAddedNodes added its nodes' registry entries leaves %v %s", out.orphans, msg)
+	if stats.Known("C09", "commit-step-in-progress-at-crash-is-not-rolled-back") {
+		stats.For("C09").KnownFinding(what)
+		return
+	}
+	t.Fatalf("%s", what)
+}
+
+// genNodeRemovingHistory: a store with slot length 2 holding 5-9 keys; the victim removes a run of adjacent keys (nodes
+// get emptied and unlinked, so its commit and cleanup remove registry entries and blobs) and may add or update others.
+func genNodeRemovingHistory(t *rapid.T) txh.History {
+	h := txh.History{HashMod: rapid.SampledFrom([]int{1, 3}).Draw(t, "hashMod"), UUIDSeed: rapid.Uint64().Draw(t, "uuidSeed"),
+		Stores: []txh.StoreOpts{{Name: "st0", Slot: 2, Unique: true, Placement: rapid.SampledFrom([]int{0, 0, 1, 3}).Draw(t, "placement")}}}
+	nk := rapid.IntRange(5, 9).Draw(t, "keys")
+	var seed []txh.Op
+	for k := 0; k < nk; k++ {
+		seed = append(seed, txh.Op{Kind: "add", K: k, Tag: fmt.Sprintf("s%d", k), Size: 1})
+	}
+	h.Txns = append(h.Txns, txh.TxnProg{Mode: sop.ForWriting, End: "commit", Ops: seed})
+	var ops []txh.Op
+	from := rapid.IntRange(0, nk-2).Draw(t, "from")
+	to := rapid.IntRange(from+1, nk-1).Draw(t, "to")
+	for k := from; k <= to; k++ {
+		ops = append(ops, txh.Op{Kind: "remove", K: k})
+	}
+	if rapid.Bool().Draw(t, "alsoAdd") {
+		ops = append(ops, txh.Op{Kind: "add", K: nk + 1, Tag: "v.add", Size: 10})
+	}
+	if from > 0 && rapid.Bool().Draw(t, "alsoUpdate") {
+		ops = append(ops, txh.Op{Kind: "update", K: 0, Tag: "v.upd", Size: 10})
+	}
+	h.Txns = append(h.Txns, txh.TxnProg{Mode: sop.ForWriting, End: "commit", Ops: ops})
+	return h
 }
